@@ -108,92 +108,137 @@ func (c *config) rename(src string) string {
 	return src
 }
 
-// canon parses a derived file and returns its functions keyed by <plugin>(<params>), bodies printed with
-// every generated function name replaced by its key.
-func canon(src []byte, prefixes map[string]string) (map[string]string, error) {
+// canon parses a derived file and returns, per generated function, its text with every name chosen by
+// goderive taken out: import aliases are replaced by the import path, and every generated function
+// (the function itself and its callees) is named after its shape, «(parameter types) result types».
+// Which plugin produced a function is therefore read off what it computes, not off its name: under nested
+// prefixes a helper of one plugin may legitimately carry a name that starts with another plugin's prefix.
+func canon(src []byte) (map[string]string, error) {
 	fset := token.NewFileSet()
 	f, err := parser.ParseFile(fset, "derived.gen.go", src, 0)
 	if err != nil {
 		return nil, err
 	}
-	pluginFor := func(name string) string {
-		best, bl := "", -1
-		for pl, pre := range prefixes {
-			if strings.HasPrefix(name, pre) && len(pre) > bl {
-				best, bl = pl, len(pre)
+	alias := map[string]string{}
+	for _, im := range f.Imports {
+		path := strings.Trim(im.Path.Value, "\"")
+		name := path[strings.LastIndex(path, "/")+1:]
+		if im.Name != nil {
+			name = im.Name.Name
+		}
+		alias[name] = "pkg_" + strings.NewReplacer("/", "_", ".", "_", "-", "_").Replace(path)
+	}
+	ast.Inspect(f, func(n ast.Node) bool {
+		if se, ok := n.(*ast.SelectorExpr); ok {
+			if id, ok := se.X.(*ast.Ident); ok && id.Obj == nil {
+				if a, ok := alias[id.Name]; ok {
+					id.Name = a
+				}
 			}
 		}
-		return best
-	}
+		return true
+	})
 	typeStr := func(e ast.Expr) string {
 		var b bytes.Buffer
 		printer.Fprint(&b, fset, e)
 		return b.String()
 	}
-	keys := map[string]string{}
-	for _, d := range f.Decls {
-		fd, ok := d.(*ast.FuncDecl)
-		if !ok {
-			continue
+	fields := func(fl *ast.FieldList) string {
+		if fl == nil {
+			return ""
 		}
 		var ps []string
-		for _, fl := range fd.Type.Params.List {
-			n := len(fl.Names)
+		for _, fd := range fl.List {
+			n := len(fd.Names)
 			if n == 0 {
 				n = 1
 			}
 			for i := 0; i < n; i++ {
-				ps = append(ps, typeStr(fl.Type))
+				ps = append(ps, typeStr(fd.Type))
 			}
 		}
-		keys[fd.Name.Name] = "«" + pluginFor(fd.Name.Name) + "»(" + strings.Join(ps, ", ") + ")"
+		return strings.Join(ps, ", ")
+	}
+	mangle := strings.NewReplacer("(", "_", ")", "_", ",", "_", " ", "", "*", "P", "[", "L", "]", "R", ".", "_", "{", "_", "}", "_", ";", "_", "<-", "A", "\n", "", "\t", "")
+	keys := map[string]string{}
+	for _, d := range f.Decls {
+		if fd, ok := d.(*ast.FuncDecl); ok && fd.Recv == nil {
+			keys[fd.Name.Name] = "F_" + mangle.Replace("("+fields(fd.Type.Params)+")"+fields(fd.Type.Results))
+		}
 	}
 	out := map[string]string{}
 	for _, d := range f.Decls {
 		fd, ok := d.(*ast.FuncDecl)
-		if !ok {
+		if !ok || fd.Recv != nil {
 			continue
 		}
+		name := fd.Name.Name
 		fd.Doc = nil
 		ast.Inspect(fd, func(n ast.Node) bool {
-			if id, ok := n.(*ast.Ident); ok {
+			// only identifiers that resolve to the generated function: a local variable or parameter may
+			// carry the same name (h := uint64(17) in a hash function next to an equal helper named h)
+			if id, ok := n.(*ast.Ident); ok && (id == fd.Name || (id.Obj != nil && id.Obj.Kind == ast.Fun)) {
 				if k, ok := keys[id.Name]; ok {
-					id.Name = strings.NewReplacer("«", "F_", "»", "_", "(", "_", ")", "_", ",", "_", " ", "", "*", "P", "[", "L", "]", "R", ".", "_", "{", "_", "}", "_", ";", "_").Replace(k)
+					id.Name = k
 				}
 			}
 			return true
 		})
 		var b bytes.Buffer
 		printer.Fprint(&b, token.NewFileSet(), fd)
-		key := keys[fd.Name.Name]
-		if key == "" {
-			key = fd.Name.Name
-		}
-		// fd.Name was rewritten: recover the key from the rewritten name is not needed, keep ordering key
-		out[b.String()[:0]+fmt.Sprint(len(out))+"|"+firstLine(b.String())] = b.String()
+		out[name] = b.String()
 	}
 	return out, nil
 }
 
-func firstLine(s string) string {
-	if i := strings.Index(s, "\n"); i >= 0 {
-		return s[:i]
+// shadowedCalls lists calls f(...) in a derived file where f is the name of a generated function but
+// resolves to a local variable or parameter of the enclosing function.
+func shadowedCalls(src []byte) []string {
+	fset := token.NewFileSet()
+	f, err := parser.ParseFile(fset, "derived.gen.go", src, 0)
+	if err != nil {
+		return nil
 	}
-	return s
+	funcs := map[string]bool{}
+	for _, d := range f.Decls {
+		if fd, ok := d.(*ast.FuncDecl); ok && fd.Recv == nil {
+			funcs[fd.Name.Name] = true
+		}
+	}
+	seen := map[string]bool{}
+	var out []string
+	for _, d := range f.Decls {
+		fd, ok := d.(*ast.FuncDecl)
+		if !ok {
+			continue
+		}
+		ast.Inspect(fd, func(n ast.Node) bool {
+			if ce, ok := n.(*ast.CallExpr); ok {
+				if id, ok := ce.Fun.(*ast.Ident); ok && funcs[id.Name] && id.Obj != nil && id.Obj.Kind != ast.Fun {
+					k := id.Name + " in " + fd.Name.Name
+					if !seen[k] {
+						seen[k] = true
+						out = append(out, k)
+					}
+				}
+			}
+			return true
+		})
+	}
+	sort.Strings(out)
+	return out
 }
 
-func canonSet(src []byte, prefixes map[string]string) ([]string, error) {
-	m, err := canon(src, prefixes)
-	if err != nil {
-		return nil, err
-	}
+func canonSet(m map[string]string) []string {
 	var out []string
 	for _, v := range m {
 		out = append(out, v)
 	}
 	sort.Strings(out)
-	return out, nil
+	return out
 }
+
+var reUserCall = regexp.MustCompile(`\bderive[A-Z]\w*T\d+\b`)
 
 var customPool = []string{"gen", "my", "d", "Derive", "mk", "auto_", "x"}
 var overridePool = []string{"same", "ord", "eq", "cmp", "h", "cp", "srt", "ks", "has", "uniq", "gs", "clone", "Min", "keysOf"}
@@ -403,14 +448,19 @@ func TestProp(t *testing.T) {
 			c.Fail(rt, map[string]string{"check": "default-run-no-file"}, "the default run exits 0 but writes no derived.gen.go for a package with derive calls\ncalls: "+strings.Join(d.calls, "; "), d.files, nil)
 			return
 		}
-		prefixes2 := map[string]string{}
-		for pl := range defaults {
-			prefixes2[pl] = cfg.prefixOf(pl)
-		}
-		canon1, err := canonSet(out1, defaults)
+		byName1, err := canon(out1)
 		if err != nil {
 			c.Rep.Inconcl("default output does not parse: %v", err)
 			return
+		}
+		canon1 := canonSet(byName1)
+		userCalls := map[string]bool{}
+		for k, v := range d.files {
+			if strings.HasPrefix(k, "p/") && strings.HasSuffix(k, ".go") {
+				for _, n := range reUserCall.FindAllString(v, -1) {
+					userCalls[n] = true
+				}
+			}
 		}
 		renamed := map[string]string{}
 		for k, v := range d.files {
@@ -441,7 +491,7 @@ func TestProp(t *testing.T) {
 			fail := func(check, msg string) {
 				sig["check"] = check
 				os.RemoveAll(d2)
-				c.Fail(rt, sig, msg+"\nflags: "+strings.Join(cfg.args(), " ")+"\nregistration order: "+m+"\ncalls: "+strings.Join(d.calls, "; "), renamed, map[string]any{"flags": cfg.args(), "order": m})
+				c.Fail(rt, sig, msg+"\nflags: "+strings.Join(cfg.args(), " ")+"\nregistration order: "+m+"\ncalls: "+strings.Join(d.calls, "; "), renamed, map[string]any{"flags": cfg.args(), "order": m, "default_files": d.files})
 			}
 			if r2.Exit != 0 || r2.TimedOut {
 				fail("customised-run-fails", fmt.Sprintf("the default run succeeds but the customised run exits %d:\n%s", r2.Exit, pkit.Trunc(r2.Stderr, 600)))
@@ -453,10 +503,40 @@ func TestProp(t *testing.T) {
 				fail("customised-run-no-file", "the customised run wrote no derived.gen.go")
 				return
 			}
-			canon2, err := canonSet(out2, prefixes2)
+			if sh := shadowedCalls(out2); len(sh) > 0 && len(shadowedCalls(out1)) == 0 {
+				fail("prefix-shadowed-by-local", "a generated function named by the customised prefix is called where a local variable or parameter of the same name shadows it (the output does not compile): "+strings.Join(sh, "; "))
+				if m == use[len(use)-1] {
+					return
+				}
+				continue
+			}
+			byName2, err := canon(out2)
 			if err != nil {
 				fail("customised-output-unparsable", err.Error())
 				return
+			}
+			canon2 := canonSet(byName2)
+			// every call the user wrote is answered by the function the default run generates for it
+			var ucs []string
+			for n := range userCalls {
+				ucs = append(ucs, n)
+			}
+			sort.Strings(ucs)
+			for _, n := range ucs {
+				want, ok1 := byName1[n]
+				got, ok2 := byName2[cfg.rename(n)]
+				if !ok1 {
+					continue
+				}
+				if !ok2 {
+					fail("call-not-generated", fmt.Sprintf("the default run generates %s, the customised run generates no %s", n, cfg.rename(n)))
+					return
+				}
+				if want != got {
+					fail("call-handled-differently", fmt.Sprintf("%s (default) and %s (customised) are different functions:\n--- default\n%s\n--- customised\n%s", n, cfg.rename(n), pkit.Trunc(want, 700), pkit.Trunc(got, 700)))
+					return
+				}
+				c.Rep.AddExtra("user_calls_matched", 1)
 			}
 			if strings.Join(canon1, "\n") != strings.Join(canon2, "\n") {
 				diff := ""
@@ -484,8 +564,79 @@ func TestProp(t *testing.T) {
 	})
 }
 
-func TestProbes(t *testing.T) { pkit.Load(prop).RunProbes(t, nil) }
+func TestProbes(t *testing.T) {
+	c := pkit.Load(prop)
+	c.RunProbes(t, []pkit.Probe{{ID: "C12-prefix-shadowed-by-local", Run: func() (bool, string, error) {
+		d := c.CaseDir()
+		defer os.RemoveAll(d)
+		gorun.WriteFiles(d, map[string]string{
+			"go.mod": "module subj\n\ngo 1.23\n",
+			"p/a.go": "package p\n\ntype S struct {\n\tA int\n\tM map[string]*S\n}\n\nfunc H(s *S) uint64 { return hS(s) }\n",
+		})
+		r := gorun.RunGoderive(d, "-pluginprefix=hash=h", "./p")
+		if r.Exit != 0 {
+			return false, "", fmt.Errorf("goderive exits %d on the probe package: %s", r.Exit, pkit.Trunc(r.Stderr, 300))
+		}
+		out, err := os.ReadFile(filepath.Join(d, "p", gorun.DerivedFile))
+		if err != nil {
+			return false, "", err
+		}
+		sh := shadowedCalls(out)
+		return len(sh) > 0, "-pluginprefix=hash=h on a struct with a map field: " + strings.Join(sh, "; "), nil
+	}}})
+}
 
+// TestReplay re-runs a saved case with the registered plugin order (the permuted-order binaries are not rebuilt).
 func TestReplay(t *testing.T) {
-	t.Skip("C12 replays: run goderive with the flags in replay.json on <dir>/module and compare with the default-named package")
+	dir := pkit.ReplayDir()
+	if dir == "" {
+		t.Skip("no replay dir")
+	}
+	meta, renamed, err := pkit.ReadReplay(dir)
+	if err != nil {
+		t.Fatal(err)
+	}
+	df, ok := meta["default_files"].(map[string]any)
+	if !ok {
+		t.Fatalf("replay.json has no default_files (saved by an older version of the check)")
+	}
+	c := pkit.Load(prop)
+	def := map[string]string{}
+	for k, v := range df {
+		def[k] = fmt.Sprint(v)
+	}
+	var flags []string
+	if fl, ok := meta["flags"].([]any); ok {
+		for _, f := range fl {
+			flags = append(flags, fmt.Sprint(f))
+		}
+	}
+	d1, d2 := c.CaseDir(), c.CaseDir()
+	defer os.RemoveAll(d1)
+	defer os.RemoveAll(d2)
+	gorun.WriteFiles(d1, def)
+	delete(renamed, "p/"+gorun.DerivedFile)
+	gorun.WriteFiles(d2, renamed)
+	if r := gorun.RunGoderive(d1, "./p"); r.Exit != 0 {
+		t.Fatalf("the default run is rejected: %s", r.Stderr)
+	}
+	if r := gorun.RunGoderive(d2, append(flags, "./p")...); r.Exit != 0 {
+		t.Fatalf("still fails: the customised run exits %d: %s", r.Exit, r.Stderr)
+	}
+	out1, err1 := os.ReadFile(filepath.Join(d1, "p", gorun.DerivedFile))
+	out2, err2 := os.ReadFile(filepath.Join(d2, "p", gorun.DerivedFile))
+	if err1 != nil || err2 != nil {
+		t.Fatalf("still fails: a run wrote no derived.gen.go (%v, %v)", err1, err2)
+	}
+	if sh := shadowedCalls(out2); len(sh) > 0 && len(shadowedCalls(out1)) == 0 {
+		t.Fatalf("still fails: shadowed calls %v", sh)
+	}
+	m1, e1 := canon(out1)
+	m2, e2 := canon(out2)
+	if e1 != nil || e2 != nil {
+		t.Fatalf("still fails: output does not parse (%v, %v)", e1, e2)
+	}
+	if strings.Join(canonSet(m1), "\n") != strings.Join(canonSet(m2), "\n") {
+		t.Fatalf("still fails: the customised run does not generate the same functions up to renaming")
+	}
 }
